@@ -213,7 +213,7 @@ func bubbleUpNullValuesInPlaceRec(schema *ast.Schema, currentType *ast.Type, sel
 					if field.Definition.Type.NonNull {
 						errs = append(errs, &gqlerror.Error{
 							Message:    fmt.Sprintf("got a null response for non-nullable field %q", field.Alias),
-							Path:       append(path, ast.PathName(field.Alias)),
+							Path:       appendPathName(path, field.Alias),
 							Extensions: nil,
 						})
 						bubbleUp = true
@@ -221,7 +221,7 @@ func bubbleUpNullValuesInPlaceRec(schema *ast.Schema, currentType *ast.Type, sel
 					continue
 				}
 				if field.SelectionSet != nil {
-					lowerErrs, lowerBubbleUp, lowerErr := bubbleUpNullValuesInPlaceRec(schema, field.Definition.Type, field.SelectionSet, value, append(path, ast.PathName(field.Alias)))
+					lowerErrs, lowerBubbleUp, lowerErr := bubbleUpNullValuesInPlaceRec(schema, field.Definition.Type, field.SelectionSet, value, appendPathName(path, field.Alias))
 					if lowerErr != nil {
 						return nil, false, lowerErr
 					}
@@ -301,6 +301,12 @@ func bubbleUpNullValuesInPlaceRec(schema *ast.Schema, currentType *ast.Type, sel
 		return nil, false, fmt.Errorf("bubbleUpNullValuesInPlaceRec: unxpected result type '%T'", result)
 	}
 	return
+}
+
+func appendPathName(path []ast.PathElement, name string) []ast.PathElement {
+	pathCopy := make([]ast.PathElement, len(path))
+	copy(pathCopy, path)
+	return append(pathCopy, ast.PathName(name))
 }
 
 func appendPathIndex(path []ast.PathElement, index int) []ast.PathElement {
